@@ -219,6 +219,11 @@ Definition step (st : state) (o : op) : state * obs :=
       | Some (EHub _ O) => (st, ORaise "IndexError")
       | _ => (st, OBad)
       end
+  | OTee i O =>       (* itertools.tee(x, 0) returns () without calling iter(x) *)
+      match nth_error st i with
+      | Some (EStream _) | Some (EHub _ _) => (st, ONews (List.length st) O)
+      | _ => (st, OBad)
+      end
   | OTee i n =>
       match give st i with
       | inl (Some (st', s)) => (st' ++ repeat (EStream s) n, ONews (List.length st) n)
@@ -234,3 +239,20 @@ Fixpoint run (st : state) (ops : list op) : list obs :=
   | [] => []
   | o :: r => let '(st', ob) := step st o in ob :: run st' r
   end.
+
+(* ---- vocabulary of the theorems ---- *)
+(* the object an operation is applied to *)
+Definition target (o : op) : option nat :=
+  match o with
+  | ONext i | OTake i _ | OPeek i _ | OSkip i _ | OLimit i _ | OCopy i | OAppend i _
+  | OMap i _ | OFilter i _ | OThub i _ | OUse i | OTee i _ => Some i
+  | OThubVal _ _ | OTeeVal _ _ => None
+  end.
+
+(* the state after a history *)
+Fixpoint final (st : state) (ops : list op) : state :=
+  match ops with [] => st | o :: r => final (fst (step st o)) r end.
+
+(* histories over finite sources only (no periodic Stream(a, b, ..) in the pool or appended) *)
+Definition fin_op (o : op) : Prop := match o with OAppend _ (PCyc _) => False | _ => True end.
+Definition fin_pool (p : pool) : Prop := match p with PFin _ => True | PCyc _ => False end.
